@@ -34,6 +34,8 @@ type PQuery struct {
 }
 
 type Project struct {
+	Suffix     []string // statements that follow all declarations (drops / alters of junk objects)
+	JunkTables []string
 	Engine     string
 	Composites []string
 	Enums      []PEnum
@@ -105,6 +107,23 @@ func genProject(r *Rng, engine string) Project {
 	// queries
 	nq := 1 + r.Intn(5)
 	used := map[string]bool{}
+	if r.Chance(25) {
+		// twin tables: identical column lists, so that row shapes of different origin collide
+		cols := []PCol{{Name: "id", Type: "bigint", NotNull: true}, {Name: "name", Type: pool[0].t, NotNull: true}}
+		p.Tables = []PTable{{Name: "authors", Cols: cols}, {Name: "venues", Cols: append([]PCol{}, cols...)}}
+		twins := []PQuery{
+			{Name: "MixedShape", Cmd: ":many", SQL: "SELECT a.id, b.name FROM authors a JOIN venues b ON b.id = a.id", Tags: []string{"twin"}},
+			{Name: "ListAuthorsPlain", Cmd: ":many", SQL: "SELECT id, name FROM authors", Tags: []string{"twin"}},
+			{Name: "ListVenuesPlain", Cmd: ":many", SQL: "SELECT id, name FROM venues", Tags: []string{"twin"}},
+			{Name: "AliasSwap", Cmd: ":many", SQL: "SELECT name AS id, id AS name FROM authors", Tags: []string{"twin"}},
+			{Name: "ReorderedAll", Cmd: ":many", SQL: "SELECT name, id FROM venues", Tags: []string{"twin"}},
+		}
+		tp := r.Perm(len(twins))
+		for _, j := range tp[:2+r.Intn(len(twins)-1)] {
+			used[twins[j].Name] = true
+			p.Queries = append(p.Queries, twins[j])
+		}
+	}
 	for i := 0; i < nq; i++ {
 		q := genProjQuery(r, &p, i)
 		if used[q.Name] {
@@ -112,6 +131,15 @@ func genProject(r *Rng, engine string) Project {
 		}
 		used[q.Name] = true
 		p.Queries = append(p.Queries, q)
+	}
+	if r.Chance(30) {
+		// junk tables that a later migration drops again, in one statement
+		p.JunkTables = []string{"old_sessions", "old_audit", "old_tmp"}[:2+r.Intn(2)]
+		drop := append([]string{}, p.JunkTables...)
+		if r.Bool() {
+			drop[0], drop[len(drop)-1] = drop[len(drop)-1], drop[0]
+		}
+		p.Suffix = append(p.Suffix, "DROP TABLE "+strings.Join(drop, ", ")+";")
 	}
 	for _, o := range []string{"emit_json_tags", "emit_db_tags", "emit_prepared_queries", "emit_interface", "emit_exact_table_names", "emit_empty_slices"} {
 		p.Opts[o] = r.Chance(35)
@@ -220,12 +248,15 @@ func (p Project) SchemaDecls() (enums, tables []string) {
 	for _, t := range p.Tables {
 		tables = append(tables, t.DDL(p.Engine))
 	}
+	for _, j := range p.JunkTables {
+		tables = append(tables, "CREATE TABLE "+j+" (id bigint NOT NULL, payload text);")
+	}
 	return
 }
 
 func (p Project) Schema() string {
 	e, t := p.SchemaDecls()
-	return strings.Join(append(e, t...), "\n") + "\n"
+	return strings.Join(append(append(e, t...), p.Suffix...), "\n") + "\n"
 }
 
 func (q PQuery) Text() string {
